@@ -126,6 +126,18 @@ IdRecv(st, transport, inbox, mine) ==
 IdCanExpire(st, inbox, dl) == st.res = "pending" /\ st.pos >= Min(dl, Len(inbox))
 IdExpire(st) == [st EXCEPT !.res = "timeout"]
 
+(* Which rule a real transport gets is decided by its KIND, not by which Go    *)
+(* interfaces the connection object happens to implement: byte streams (TCP,  *)
+(* unix-domain SOCK_STREAM, and the same wrapped in another conn type) are    *)
+(* "stream"; UDP and unix-domain SOCK_DGRAM are "dgram".  SOCK_SEQPACKET      *)
+(* ("unixpacket") is connection-oriented but keeps message boundaries and is  *)
+(* carried without length prefix: the statement's two words do not decide it, *)
+(* both rules are admitted.                                        \* AMBIG   *)
+KindRules == [tcp |-> {"stream"}, unix |-> {"stream"}, unixwrapped |-> {"stream"}, tcpwrapped |-> {"stream"},
+              udp |-> {"dgram"}, unixgram |-> {"dgram"}, udpwrapped |-> {"dgram"},
+              unixpacket |-> {"stream", "dgram"}]
+Kinds == DOMAIN KindRules
+
 \* closed form
 IdResult(transport, inbox, dl, mine) ==
   LET arrived == Sub(inbox, 1, Min(dl, Len(inbox))) IN
